@@ -31,4 +31,28 @@ PROPS = {
         explanation="Lean theorems over the executable model of the three negotiation codecs, Validate and CompressConfig (all parameter sets, all byte strings); tie = differential run of the real codecs against the model on the grid and on arbitrary maps/bytes, plus the property's own oracle on the implementation",
         assumptions=["the receiving struct is fresh (zero) as in every call site of the library", "Go int is 64 bit"],
     ),
+    'C07': dict(
+        lean_modules=['Iscp.Props.C07'],
+        gen=[],
+        harnesses=[dict(name='store', pkg='./corr/store', topic='store', n_quick=400, n_thorough=4000, thorough_seeds=4),
+                   dict(name='wire', pkg='./corr/wire', topic='wire', n_quick=80, n_thorough=600, thorough_seeds=3, timeout=1500)],
+        trusted_base=COMMON_TB + [
+            "hook H2 (verif tag): exported constructors of the unexported in-memory sent storages",
+            "modelled, not verified: Go maps, sync.RWMutex (each critical section = one atomic model step), buffered channels as bounded FIFO queues",
+        ],
+        rule="store harness: random multi-stream op sequences (2-4 stream ids always hold data before any Clear; store/remove/list/clear on known and unknown stream ids; both storage variants), isolation oracle after every op on the real storage; wire harness: routing scenarios on a real wire.ClientConn over scripted transports (several upstream/downstream aliases opened and closed through real request/response exchanges, acks/chunks/ack-completes/metadata for known and unknown aliases and source nodes, drains) with the oracle that every drained token was addressed to the draining alias; distinct = distinct op-kind signature of the case; non-trivial = at least two streams hold data / are open",
+        explanation="Lean theorems: frame lemmas for the storage and the routing tables and the relational non-interference statement over arbitrary interleavings; tie = differential runs of the real storage and the real wire connection against the model",
+        assumptions=["stream aliases in use on one connection are pairwise distinct (assigned by the broker / the connection's generator)"],
+    ),
+    'C06': dict(
+        lean_modules=['Iscp.Props.C06'],
+        gen=[],
+        harnesses=[dict(name='wire', pkg='./corr/wire', topic='wire', n_quick=120, n_thorough=1000, thorough_seeds=3, timeout=1500)],
+        trusted_base=COMMON_TB + [
+            "modelled, not verified: goroutine scheduling (a history = any list of req/resp/cancel events), channels (1-slot reply mailbox), sync.Mutex",
+        ],
+        rule="cases = 1-5 concurrent callers on one real wire.ClientConn issuing mixed typed requests; the scripted broker answers in random order with correct, duplicated, spurious (unknown / odd / already answered id) and wrong-kind responses; cancellations at random points followed by the late response; every response is followed by a FIFO sentinel exchange through readRequestLoop so outcomes are observed without sleeping; independent oracle: each returning caller holds a response bearing its own request id and of its own kind, ids are fresh and even; distinct = distinct event-kind signature; non-trivial = at least one response delivered out of issue order or a spurious/cancel event present (signature length > 6 sampled)",
+        explanation="Lean theorems over the correlator model (ids even/distinct, invariant of reachable states, own response, unknown/duplicate ignored, cancel isolated, typed); tie = differential run of the real wire.ClientConn against the model",
+        assumptions=["fewer than 2^31-1 requests per connection (uint32 id wrap-around)"],
+    ),
 }
